@@ -58,6 +58,7 @@ Inductive bkind :=
 | BFinally                  (* finally(a, b) *)
 | BWhenAll                  (* when_all(a, b), values folded into one by [combine] *)
 | BStopWhen                 (* stop_when(a, b): a = source, b = trigger *)
+| BWhenAny                  (* [Calc2] when_any(a, b): see conc_child_done *)
 | BRetry (n : nat).         (* [Calc2] retry_when(a, f): b = the trigger sender f returns for the first n errors
                               (may use Var 0 = the error code); from the (n+1)-th error on f's sender fails
                               with that error *)
@@ -134,7 +135,8 @@ Record nst := {
   adone : bool; bdone : bool;
   saved : option outcome;      (* finally: a's result; when_all: first error/done; stop_when: source's result *)
   va : Z; vb : Z;              (* when_all: children's values *)
-  n_iter : nat                 (* [Calc2] repeat_effect_until: predicate calls so far; retry_when: errors handled so far *)
+  n_iter : nat;                (* [Calc2] repeat_effect_until: predicate calls so far; retry_when: errors handled so far *)
+  cell : option Z              (* [Calc2] when_any: the first value a child produced (optResult) *)
 }.
 
 (* [Calc2] completion and destruction are distinct: a completed leaf stays [OLeaf true _] and a
@@ -151,31 +153,34 @@ Inductive ost :=
 
 Definition mk_nst (p : phase) (en : env) : nst :=
   {| ph := p; n_env := en; own_stop := false; reg := false; adone := false; bdone := false;
-     saved := None; va := 0; vb := 0; n_iter := 0 |}.
+     saved := None; va := 0; vb := 0; n_iter := 0; cell := None |}.
 Definition ns_set_env (ns : nst) (en : env) : nst :=
   {| ph := ph ns; n_env := en; own_stop := own_stop ns; reg := reg ns; adone := adone ns; bdone := bdone ns;
-     saved := saved ns; va := va ns; vb := vb ns; n_iter := n_iter ns |}.
+     saved := saved ns; va := va ns; vb := vb ns; n_iter := n_iter ns; cell := cell ns |}.
 Definition ns_set_ph (ns : nst) (p : phase) : nst :=
   {| ph := p; n_env := n_env ns; own_stop := own_stop ns; reg := reg ns; adone := adone ns; bdone := bdone ns;
-     saved := saved ns; va := va ns; vb := vb ns; n_iter := n_iter ns |}.
+     saved := saved ns; va := va ns; vb := vb ns; n_iter := n_iter ns; cell := cell ns |}.
 Definition ns_set_own (ns : nst) (b : bool) : nst :=
   {| ph := ph ns; n_env := n_env ns; own_stop := b; reg := reg ns; adone := adone ns; bdone := bdone ns;
-     saved := saved ns; va := va ns; vb := vb ns; n_iter := n_iter ns |}.
+     saved := saved ns; va := va ns; vb := vb ns; n_iter := n_iter ns; cell := cell ns |}.
 Definition ns_set_reg (ns : nst) (b : bool) : nst :=
   {| ph := ph ns; n_env := n_env ns; own_stop := own_stop ns; reg := b; adone := adone ns; bdone := bdone ns;
-     saved := saved ns; va := va ns; vb := vb ns; n_iter := n_iter ns |}.
+     saved := saved ns; va := va ns; vb := vb ns; n_iter := n_iter ns; cell := cell ns |}.
 Definition ns_set_saved (ns : nst) (o : option outcome) : nst :=
   {| ph := ph ns; n_env := n_env ns; own_stop := own_stop ns; reg := reg ns; adone := adone ns; bdone := bdone ns;
-     saved := o; va := va ns; vb := vb ns; n_iter := n_iter ns |}.
+     saved := o; va := va ns; vb := vb ns; n_iter := n_iter ns; cell := cell ns |}.
 Definition ns_set_iter (ns : nst) (i : nat) : nst :=
   {| ph := ph ns; n_env := n_env ns; own_stop := own_stop ns; reg := reg ns; adone := adone ns; bdone := bdone ns;
-     saved := saved ns; va := va ns; vb := vb ns; n_iter := i |}.
+     saved := saved ns; va := va ns; vb := vb ns; n_iter := i; cell := cell ns |}.
+Definition ns_set_cell (ns : nst) (c : option Z) : nst :=
+  {| ph := ph ns; n_env := n_env ns; own_stop := own_stop ns; reg := reg ns; adone := adone ns; bdone := bdone ns;
+     saved := saved ns; va := va ns; vb := vb ns; n_iter := n_iter ns; cell := c |}.
 (* child i (false = a, true = b) finished, with value v if it produced one *)
 Definition ns_child_done (ns : nst) (i : bool) (v : Z) : nst :=
   if i then {| ph := ph ns; n_env := n_env ns; own_stop := own_stop ns; reg := reg ns; adone := adone ns; bdone := true;
-               saved := saved ns; va := va ns; vb := v; n_iter := n_iter ns |}
+               saved := saved ns; va := va ns; vb := v; n_iter := n_iter ns; cell := cell ns |}
   else {| ph := ph ns; n_env := n_env ns; own_stop := own_stop ns; reg := reg ns; adone := true; bdone := bdone ns;
-          saved := saved ns; va := v; vb := vb ns; n_iter := n_iter ns |}.
+          saved := saved ns; va := v; vb := vb ns; n_iter := n_iter ns; cell := cell ns |}.
 
 Definition res := (ost * list tev * option outcome)%type.
 
@@ -230,7 +235,7 @@ Definition after_second (k : bkind) (sv : option outcome) (o : outcome) : outcom
   end.
 
 Definition is_seq (k : bkind) : bool :=
-  match k with BWhenAll | BStopWhen => false | _ => true end.
+  match k with BWhenAll | BStopWhen | BWhenAny => false | _ => true end.
 
 (* ---- [Calc2] lifetimes of child operation states ------------------------------------------------ *)
 (* Order in which the destructor of a binary node's operation state destroys its children:
@@ -401,6 +406,26 @@ Definition seq_pass (k : bkind) (a : sexpr) (sa : ost) (tr : list tev) (o : outc
 Definition seq_final (k : bkind) (b : sexpr) (sb : ost) (tr : list tev) (o : outcome) : res :=
   if eager_dtor k then (OFin, tr ++ dtor b sb, Some o) else (OCompl OFin sb, tr, Some o).
 
+(* [Calc2] when_any.hpp defines when_any(a, b) as the composition (optResult, once_flag shared by reference)
+     let_value(just(opt, a, b), [](opt&, a&, b&) { return let_value_with(once_flag, [&](flag&) { return
+        when_all(let_value(a, store), let_value(b, store))
+        | let_done([&] { return just_void_or_done(opt.has_value()); })
+        | let_value([&](auto...) { return just(opt.value()); }); }); })
+   with store(v...) = call_once(flag, opt.emplace(v...)), returning just_void_or_done(false), i.e. done.
+   The value-passing calculus has no shared mutable cell, so BWhenAny is a primitive concurrent kind whose
+   rules are DERIVED from that composition (and checked against the real unifex::when_any):
+   - a child's value is stored if it is the first ([cell]) and reaches when_all as done; the inner
+     let_value destroys that child's operation at once ([conc_reap]);
+   - every child result therefore requests when_all's own stop source;
+   - when_all's result wa = done if the receiver's stop was requested, else its first non-value;
+     error passes through (the when_all operation stays alive); done -> let_done destroys the when_all
+     operation, then value(cell) if a value was stored, else done. *)
+Definition conc_reap (k : bkind) (c : sexpr) (r : res) : res :=
+  match k, r with
+  | BWhenAny, (sc, tr, Some (OVal v)) => (OFin, tr ++ dtor c sc, Some (OVal v))
+  | _, _ => r
+  end.
+
 (* a concurrent algorithm (when_all / stop_when) learns that child [i] completed with [o].
    Returns the updated node state, whether the own stop source is newly requested (the other
    child must then be told), and the final outcome if this was the last child. *)
@@ -410,7 +435,8 @@ Definition conc_child_done (k : bkind) (ns : nst) (i : bool) (o : outcome) : nst
   let newly :=
       match k with
       | BWhenAll => match o with OVal _ => false | _ => negb (own_stop ns) end
-      | _ => negb (own_stop ns)                      (* stop_when: any completion stops the other *)
+      | _ => negb (own_stop ns)                      (* stop_when: any completion stops the other;
+                                                        when_any: every child result reaches when_all as non-value *)
       end in
   let sv :=
       match k with
@@ -419,15 +445,26 @@ Definition conc_child_done (k : bkind) (ns : nst) (i : bool) (o : outcome) : nst
                     | None, _ => Some o
                     | Some s, _ => Some s
                     end
+      | BWhenAny => match saved ns with               (* when_all's first non-value result *)
+                    | Some s => Some s
+                    | None => Some (match o with OErr e => OErr e | _ => ODone end)
+                    end
       | _ => if i then saved ns else Some o          (* stop_when keeps the source's result *)
       end in
-  let ns2 := ns_set_saved (ns_set_own ns1 (own_stop ns || newly)) sv in
+  let cl := match k, o, cell ns with BWhenAny, OVal v, None => Some v | _, _, _ => cell ns end in
+  let ns2 := ns_set_cell (ns_set_saved (ns_set_own ns1 (own_stop ns || newly)) sv) cl in
   if adone ns2 && bdone ns2 then
     let final :=
         match k with
         | BWhenAll =>
             if e_stopped (n_env ns2) then ODone
             else match sv with Some s => s | None => OVal (combine (va ns2) (vb ns2)) end
+        | BWhenAny =>
+            let wa := if e_stopped (n_env ns2) then ODone else match sv with Some s => s | None => ODone end in
+            match wa with
+            | OErr e => OErr e                                   (* passes let_done and let_value *)
+            | _ => match cl with Some v => OVal v | None => ODone end   (* let_done: just_void_or_done(has_value) *)
+            end
         | _ => match sv with Some s => s | None => ODone end
         end in
     (ns2, newly, Some final)
@@ -437,10 +474,15 @@ Definition conc_child_done (k : bkind) (ns : nst) (i : bool) (o : outcome) : nst
    [leak] = the completion happens on stop_when's cancel_callback path, which delivers WITHOUT
    resetting the callback (stop_when.hpp, cancel_callback::operator()).
    [Calc2] both children stay alive (members of the operation state) until the node is destroyed. *)
-Definition finish_conc (k : bkind) (ns : nst) (sa sb : ost) (tr : list tev) (fin : option outcome)
+Definition finish_conc (k : bkind) (a b : sexpr) (ns : nst) (sa sb : ost) (tr : list tev) (fin : option outcome)
            (leak : bool) : res :=
   match fin with
-  | Some o => (OCompl sa sb, tr ++ (if leak && reg ns then [TLeak (e_root (n_env ns))] else []), Some o)
+  | Some o =>
+      match k, o with
+      | BWhenAny, OErr _ => (OCompl sa sb, tr, Some o)
+      | BWhenAny, _ => (OFin, tr ++ dtor a sa ++ dtor b sb, Some o)    (* let_done destroyed the when_all operation *)
+      | _, _ => (OCompl sa sb, tr ++ (if leak && reg ns then [TLeak (e_root (n_env ns))] else []), Some o)
+      end
   | None => (ONode ns sa sb, tr, None)
   end.
 
@@ -514,27 +556,27 @@ Fixpoint start (e : sexpr) (en : env) (cx : nat) {struct e} : res :=
            already requested it runs inline and requests the own source and nothing stays
            registered), then start both children in order *)
         let ns0 := ns_set_own (ns_set_reg (mk_nst PBoth en) (negb (e_stopped en))) (e_stopped en) in
-        let '(sa, tra, ra) := start a (env_own en (own_stop ns0)) cx in
+        let '(sa, tra, ra) := conc_reap k a (start a (env_own en (own_stop ns0)) cx) in
         let '(ns1, _, _) :=
             match ra with
             | Some oa => conc_child_done k ns0 false oa
             | None => (ns0, false, None)
             end in
-        let '(sb, trb, rb) := start b (env_own en (own_stop ns1)) cx in
+        let '(sb, trb, rb) := conc_reap k b (start b (env_own en (own_stop ns1)) cx) in
         match rb with
         | None => (ONode ns1 sa sb, tra ++ trb, None)
         | Some ob =>
             let '(ns2, newly, fin) := conc_child_done k ns1 true ob in
             match fin with
-            | Some _ => finish_conc k ns2 sa sb (tra ++ trb) fin false
+            | Some _ => finish_conc k a b ns2 sa sb (tra ++ trb) fin false
             | None =>
                 (* a is still running; if b's completion newly requested the own source, a is told *)
                 if newly then
-                  let '(sa', tra2, ra2) := stop a sa cx in
+                  let '(sa', tra2, ra2) := conc_reap k a (stop a sa cx) in
                   match ra2 with
                   | Some oa =>
                       let '(ns3, _, fin3) := conc_child_done k ns2 false oa in
-                      finish_conc k ns3 sa' sb (tra ++ trb ++ tra2) fin3 false
+                      finish_conc k a b ns3 sa' sb (tra ++ trb ++ tra2) fin3 false
                   | None => (ONode ns2 sa' sb, tra ++ trb ++ tra2, None)
                   end
                 else (ONode ns2 sa sb, tra ++ trb, None)
@@ -614,22 +656,22 @@ with stop (e : sexpr) (st : ost) (cx : nat) {struct e} : res :=
         (* the cancel callback requests the own source: the children's callbacks run, most
            recently started child first *)
         let ns1 := ns_set_own ns' true in
-        let '(sb', trb, rb) := if bdone ns1 then (sb, [], None) else stop b sb cx in
+        let '(sb', trb, rb) := if bdone ns1 then (sb, [], None) else conc_reap k b (stop b sb cx) in
         let '(ns2, _, fin1) :=
             match rb with
             | Some ob => conc_child_done k ns1 true ob
             | None => (ns1, false, None)
             end in
         match fin1 with
-        | Some _ => finish_conc k ns2 sa sb' trb fin1 (leaky k)
+        | Some _ => finish_conc k a b ns2 sa sb' trb fin1 (leaky k)
         | None =>
-            let '(sa', tra, ra) := if adone ns2 then (sa, [], None) else stop a sa cx in
+            let '(sa', tra, ra) := if adone ns2 then (sa, [], None) else conc_reap k a (stop a sa cx) in
             let '(ns3, _, fin2) :=
                 match ra with
                 | Some oa => conc_child_done k ns2 false oa
                 | None => (ns2, false, None)
                 end in
-            finish_conc k ns3 sa' sb' (trb ++ tra) fin2 (leaky k)
+            finish_conc k a b ns3 sa' sb' (trb ++ tra) fin2 (leaky k)
         end
   | _, _ => (st, [], None)
   end.
@@ -722,42 +764,42 @@ Fixpoint leafev (e : sexpr) (st : ost) (id : nat) (o : outcome) (cx : nat) : res
             end
         end
       else
-        let '((sa', tra, ra), hita) := if adone ns then ((sa, [], None), false) else leafev a sa id o cx in
+        let '((sa', tra, ra), hita) := if adone ns then ((sa, [], None), false) else (let (r, h) := leafev a sa id o cx in (conc_reap k a r, h)) in
         if hita then
           match ra with
           | None => ((ONode ns sa' sb, tra, None), true)
           | Some oa =>
               let '(ns1, newly, fin) := conc_child_done k ns false oa in
               match fin with
-              | Some _ => (finish_conc k ns1 sa' sb tra fin false, true)
+              | Some _ => (finish_conc k a b ns1 sa' sb tra fin false, true)
               | None =>
                   (* newly requested own source: tell the sibling *)
                   if newly then
-                    let '(sb', trb, rb) := stop b sb cx in
+                    let '(sb', trb, rb) := conc_reap k b (stop b sb cx) in
                     match rb with
                     | Some ob =>
                         let '(ns2, _, fin2) := conc_child_done k ns1 true ob in
-                        (finish_conc k ns2 sa' sb' (tra ++ trb) fin2 false, true)
+                        (finish_conc k a b ns2 sa' sb' (tra ++ trb) fin2 false, true)
                     | None => ((ONode ns1 sa' sb', tra ++ trb, None), true)
                     end
                   else ((ONode ns1 sa' sb, tra, None), true)
               end
           end
         else
-          let '((sb', trb, rb), hitb) := if bdone ns then ((sb, [], None), false) else leafev b sb id o cx in
+          let '((sb', trb, rb), hitb) := if bdone ns then ((sb, [], None), false) else (let (r, h) := leafev b sb id o cx in (conc_reap k b r, h)) in
           match rb with
           | None => ((ONode ns sa sb', trb, None), hitb)
           | Some ob =>
               let '(ns1, newly, fin) := conc_child_done k ns true ob in
               match fin with
-              | Some _ => (finish_conc k ns1 sa sb' trb fin false, hitb)
+              | Some _ => (finish_conc k a b ns1 sa sb' trb fin false, hitb)
               | None =>
                   if newly then
-                    let '(sa', tra, ra) := stop a sa cx in
+                    let '(sa', tra, ra) := conc_reap k a (stop a sa cx) in
                     match ra with
                     | Some oa =>
                         let '(ns2, _, fin2) := conc_child_done k ns1 false oa in
-                        (finish_conc k ns2 sa' sb' (trb ++ tra) fin2 false, hitb)
+                        (finish_conc k a b ns2 sa' sb' (trb ++ tra) fin2 false, hitb)
                     | None => ((ONode ns1 sa' sb', trb ++ tra, None), hitb)
                     end
                   else ((ONode ns1 sa sb', trb, None), hitb)
